@@ -18,6 +18,21 @@ CHECKS = {
  "C03": (True, "E1", E1 + "; every node x side x base, all 4^K link lookups, all censor subsets of small tables/graphs, all short edge walks",
          "On every finished graph of the families (direct, re-compressed, unpruned, single shards): extension sets, edge targets, arrival sides, flip flags, symmetry and the (K+1)-mer set are compared with the reference; find_link is queried for all 4^K k-mers; the pruning operations are run on every subset of small tables / graphs; best-path queries and all edge walks of <= 3 nodes are spelled and compared.",
          "same trusted base as C01; max_path_beam judged for walk validity only", "3/C03"),
+ "C04": (True, "E1", E1 + "; read sets x (K,P) pairs x permutations x piece containers x shard order x per-shard pruning, star/mini/full configuration products",
+         "Every read set within the bound is run through the real sharded pipeline (msp_sequence -> per-bucket filter_kmers -> compress -> combine -> finish -> compress_graph) under every listed configuration and compared both with the reference (partition, payload, adjacency) and with the crate's own one-pass pipeline.",
+         "unstranded requires msp rc=true (precondition of the property); configuration dimensions are fully crossed only over the smaller family (stated per part in the evidence)", "3/C04"),
+ "C06": (True, "E1", E1 + "; all 2^n strand-flip masks per read set, three pipeline variants, differential against the unflipped run and the reference",
+         "For every read set within the bound and EVERY subset of reads reverse-complemented (n<=3), the unstranded table and the direct / re-compressed / sharded graphs must be identical to the unflipped run and keys canonical; in stranded mode tables and links must be exactly the forward windows/(K+1)-mers and a read never shares a key with its own reverse complement unless the strings share the window.",
+         "same trusted base as C01", "3/C06"),
+ "C09": (True, "E1", E1 + "; start graphs = singletons / compressed / every 2-partition combined in both orders; every censor subset of small graphs; sum and colour reductions",
+         "For every read set within the bound, every start graph (one k-mer per node, fully compressed, every 2-partition of small tables combined in both orders) is re-compressed and compared with the reference unitigs/payload/adjacency and with the direct route; idempotence is checked; for small start graphs EVERY censor subset is applied and compared with the reference of the surviving sub-table.",
+         "built without debug assertions; trusted base as C01", "3/C09"),
+ "C18": (True, "E2+E1", E2 + " (iterator state graph, closed) + " + E1,
+         "E2: the complete state graph of the real node k-mer iterator under next()/nth(n) (n below/above the short-skip threshold, inside/at/beyond the remaining count) is explored to closure for nodes of 1..10(14) k-mers placed first/middle/last in the packed store, every output compared with a slice-iterator model. E1: on every graph of the families and long LCG reads the flattened iteration yields every k-mer once and Mphf::from_chunked_iterator assigns distinct slots 0..n-1.",
+         "state key = remaining output of the real iterator (determines its private position and current k-mer); from_chunked_iterator_parallel is not exercised (needs boomphf's 'parallel' path with spin waits)", "3/C18"),
+ "C20": (True, "E1", E1 + "; serde_json as parser oracle; GFA link multiset normalised under strand flip compared with the string-level adjacency",
+         "For every graph of the families: serde JSON round trip of BaseGraph/DebruijnGraph answers every query identically; GFA (write_gfa, to_gfa, to_gfa_with_tags) lists every node once, no non-adjacency, every adjacency exactly once (palindromic single-k-mer nodes lenient), K-1M overlaps; JSON export parses and lists every node and exactly the right-going links, with and without a rest object; all value kinds round-trip over pattern families.",
+         "only the JSON serde format is available offline; serde_json trusted", "3/C20"),
 }
 
 NOT_BUILT_REASON = "check not built yet in this round (planned in DESIGN.md section 3); not claimed until it exists"
